@@ -51,8 +51,8 @@ class JumpWriteHandler(AbstractWriteHandler):
         # Only a Jump can be written as plain flow. Any other jumping operation without a marker (eg. a case
         # that does not belong to a switch we recognized) would silently lose its condition.
         assert op.root.op_code.name == OP_JUMP, f"A {op.root.op_code.name} can not be written as a jump."
-        # TODO: Writing this source map entry may be confusing, if no jump is written next (by the label handler)...
-        self.decompiler.source_map_add_opcode(op.offset)
+        # The source map entry is written with the `jump @label_N;` statement, if the label handler writes one next.
+        self.decompiler.source_map_jump_passed(op.offset)
         # Nothing to do, this is dealt with, when processing the label after this
         # either we print a jump there, or we just proceed.
         exits = self.start_vertex.out_edges()
